@@ -98,4 +98,72 @@ PrintFormatters == (pc = "build" /\ fmt = <<>>) =>
      PrintT(ToJson([dec |-> {[n |-> c[1], w |-> c[2], s |-> Dec(c[1], c[2])] : c \in MCDecCases},
                     hex |-> {[n |-> n, s |-> Hex4(n)] : n \in MCHexCases},
                     uuid |-> {[b |-> u, s |-> UUIDStr(u)] : u \in MCUUIDs}]))
+
+-----------------------------------------------------------------------------
+\* exchanges through the proxy.  "CPORT" stands for the client's source port, which only the run knows.
+Sp == Tok("text", " ", "sep", "-")
+MCXFormats == {
+  <<FieldTok("$request_method"), Sp, FieldTok("$request_uri"), Sp, FieldTok("$request_proto"), Sp, FieldTok("$request_host")>>,
+  <<FieldTok("$response_status"), Sp, FieldTok("$response_body_size")>>,
+  <<FieldTok("$response_status")>>,
+  <<FieldTok("$upstream_addr"), Sp, FieldTok("$upstream_host"), Sp, FieldTok("$upstream_port"), Sp, FieldTok("$upstream_service"), Sp, FieldTok("$upstream_request_url")>>,
+  <<FieldTok("$remote_addr"), Sp, FieldTok("$remote_host"), Sp, FieldTok("$remote_port")>>,
+  <<FieldTok("$request"), Sp, FieldTok("$request_url"), Sp, FieldTok("$request_args"), Sp, FieldTok("$request_scheme")>>,
+  <<Tok("header", "$header.User-Agent", "-", "User-Agent"), Sp, Tok("header", "$header.x-verif", "-", "X-Verif"), Sp, Tok("header", "$header.X-Missing", "-", "X-Missing")>> }
+
+R(method, expect, rest, query, host, v6) == [method |-> method, expect |-> expect, rest |-> rest, query |-> query, host |-> host, v6 |-> v6]
+MCReqs == { R("GET", FALSE, "x", "", "front.example", FALSE),
+            R("GET", FALSE, "a/b", "q=1&r=%20z", "front.example:8080", TRUE),
+            R("HEAD", FALSE, "x", "h=1", "front.example", FALSE),
+            R("POST", FALSE, "post", "", "front.example", FALSE),
+            R("POST", TRUE, "post/expect", "e=1", "Front.Example", FALSE) }
+MCReqsQuick == { r \in MCReqs : r.rest \in {"x", "post/expect"} } \cup { R("GET", FALSE, "a/b", "q=1&r=%20z", "front.example:8080", TRUE) }
+MCInfos == { <<>>, <<103>>, <<102, 103>> }
+MCInfosQuick == { <<>>, <<103>> }
+MCStatuses == { 200, 404, 500, 204, 304 }
+MCStatusesQuick == { 200, 204, 500 }
+MCChunks == { <<>>, <<1>>, <<5000>>, <<40000, 30000, 1>> }
+MCChunksQuick == { <<>>, <<40000, 30000, 1>> }
+MCTargets == { [a |-> A("hp", "backend", "8080"), prefix |-> "/t1/", svc |-> "svc-t1"],
+               [a |-> A("h", "backend2", ""), prefix |-> "/t2/", svc |-> "svc-t2"],
+               \* the route of /t3/ carries the option host=dst: the upstream gets the target's Host header;
+               \* what the client sent stays what it sent
+               [a |-> A("hp", "backend", "8080"), prefix |-> "/t3/", svc |-> "svc-t3"] }
+Client(v6) == IF v6 THEN A("v6p", "::1", "CPORT") ELSE A("hp", "127.0.0.1", "CPORT")
+ReqHdr == << H("User-Agent", "verif/1.0"), H("X-Verif", "v w") >>
+X(kind, r, info, status, framing, chunks, tg) ==
+    [id |-> ToString(<<kind, r.method, r.expect, r.rest, info, status, framing, chunks, tg.prefix>>),
+     kind |-> kind, method |-> r.method, expect |-> r.expect, path |-> tg.prefix \o r.rest, query |-> r.query, host |-> r.host,
+     info |-> info, status |-> status, framing |-> framing, chunks |-> chunks,
+     raddr |-> Client(r.v6), target |-> tg.a, svc |-> tg.svc, hdr |-> ReqHdr]
+Down  == [a |-> A("hp", "down", "81"), prefix |-> "/down/", svc |-> "svc-down"]
+Slow  == [a |-> A("hp", "slow", "82"), prefix |-> "/slow/", svc |-> "svc-slow"]
+Redir == [a |-> A("empty", "", ""), prefix |-> "/redir/", svc |-> "svc-redir"]
+NoRt  == [a |-> A("empty", "", ""), prefix |-> "/none/", svc |-> ""]
+Local(reqs) == {X("refused", r, <<>>, 502, "length", <<>>, Down) : r \in reqs}
+          \cup {X("timeout", r, <<>>, 504, "length", <<>>, Slow) : r \in {q \in reqs : ~q.expect}}
+          \cup {X("noroute", r, <<>>, 404, "length", <<>>, NoRt) : r \in reqs}
+          \cup {X("redirect", r, <<>>, 301, "length", <<>>, Redir) : r \in reqs}
+MCExchanges == {X("proxied", r, i, s, f, c, tg) : r \in MCReqs, i \in MCInfos, s \in MCStatuses, f \in {"length", "chunked"},
+                                                     c \in MCChunks, tg \in MCTargets} \cup Local(MCReqs)
+MCExchangesQuick == {X("proxied", r, i, s, "chunked", c, tg) : r \in MCReqsQuick, i \in MCInfosQuick, s \in MCStatusesQuick,
+                                                                    c \in MCChunksQuick, tg \in MCTargets}
+               \cup {X("proxied", r, <<102, 103>>, 200, "length", <<5000>>, tg) : r \in MCReqs, tg \in MCTargets}
+               \cup Local(MCReqs)
+
+MCNoExchanges == {}
+MCNoFormats == {}
+
+XJson(x) == [id |-> x.id, kind |-> x.kind, method |-> x.method, expect |-> x.expect, path |-> x.path, query |-> x.query,
+             host |-> x.host, info |-> x.info, status |-> x.status, framing |-> x.framing, chunks |-> x.chunks,
+             raddr |-> AddrStr(x.raddr), target |-> AddrStr(x.target), svc |-> x.svc, hdr |-> x.hdr,
+             cstatus |-> ClientView(x).status,
+             cbytes |-> IF x.kind = "redirect" THEN -1 ELSE ClientView(x).bytes]   \* -1: the body of a redirect is net/http's, not prescribed
+XGenServe(x) == /\ Serve(x)
+                /\ PrintT(ToJson([x |-> x.id, fmt |-> FmtJson(fmt), lines |-> Lines(fmt, EventOf(x))]))
+XGenNext == Parse \/ (\E x \in Exchanges : XGenServe(x))
+XGenInit == Init /\ fmt \in XFormats
+XGenSpec == XGenInit /\ [][XGenNext]_vars
+PrintExchanges == (pc = "build" /\ fmt = CHOOSE f \in XFormats : TRUE) =>
+                      PrintT(ToJson([exchanges |-> {XJson(x) : x \in Exchanges}]))
 =============================================================================
